@@ -147,7 +147,7 @@ def run(report, tier, seed):
     for dims in range(1, 5):
         for start in range(0, top + 1):
             for stop in range(0, top + 1):
-                if dims == 4 and stop > (3 if tier == "quick" else 5):
+                if dims == 4 and stop > 3 and tier == "quick":
                     continue
                 for norm in (0, .5, .8, 1, 2, float("inf")):
                     reqs.append(([start] * dims, [stop] * dims, norm, norm))
@@ -159,6 +159,9 @@ def run(report, tier, seed):
         reqs.append((start, stop, n0, n1))
     if tier == "quick":
         reqs = rng.sample(reqs, min(700, len(reqs)))
+        # requests with lattice points exactly ON the norm boundary (where a float comparison can go wrong), always run
+        for dims, stop, norm in ((4, 6, 2), (3, 6, 2), (4, 5, 2), (2, 5, 2), (3, 3, 2), (4, 6, 1), (4, 4, 2), (4, 6, .5), (3, 6, .5)):
+            reqs.append(([0] * dims, [stop] * dims, norm, norm))
     n_index_exh = len(reqs)
     for start, stop, n0, n1 in reqs:
         g, r = rng.random() < 0.5, rng.random() < 0.5
@@ -219,6 +222,30 @@ def run(report, tier, seed):
         if shape != [len(ix)] or els != want:
             viol.append((f"monomial({start},{stop},dimensions={dims}) is not the array of single monomials",
                          {"kind": "monomial", "start": start, "stop": stop, "dims": dims}))
+
+    # explicit indeterminate names, in orders that are not the lexicographic string order, with per-axis bounds:
+    # axis k of the exponents belongs to names[k]
+    for _ in range(40 if tier == "quick" else 400):
+        names = rng.choice([("q2", "q10"), ("q10", "q2"), ("q1", "q0"), ("q3", "q12", "q5"), ("q0", "q1"), ("q11", "q2", "q1")])
+        dims = len(names)
+        stop = [rng.randint(1, 3) for _ in range(dims)] if rng.random() < 0.6 else rng.randint(1, 3)
+        start = rng.randint(0, 1)
+        g, r = rng.random() < 0.5, rng.random() < 0.5
+        n_eval += 1
+        try:
+            m = numpoly.monomial(start, stop, dimensions=names, graded=g, reverse=r)
+        except Exception as exc:  # noqa: BLE001
+            viol.append((f"monomial({start},{stop},dimensions={names}) raised {type(exc).__name__}: {exc}",
+                         {"kind": "monomial-names", "names": names, "stop": stop}))
+            continue
+        ix = numpoly.glexindex(start, stop, dimensions=dims, graded=g, reverse=r).tolist()
+        shape, els = core.canon_elements(m)
+        idxs = [core.name_index(nm) for nm in names]
+        want = [[(tuple(sorted((idxs[k], e) for k, e in enumerate(t) if e)), 1)] for t in ix]
+        if shape != [len(ix)] or els != want:
+            viol.append((f"monomial({start},{stop},dimensions={names},graded={g},reverse={r}) is not the array whose i-th element is "
+                         f"the monomial with the i-th exponent over {names}: got {els[:4]}, expected {want[:4]}",
+                         {"kind": "monomial-names", "names": names, "start": start, "stop": stop}))
 
     failed, errors = cc.run() if tr_ok else ([], [])
     report.coverage.update({
